@@ -100,7 +100,10 @@ def children_loop_iterations(f, E):
     conds = {n.n('c').id for n in f.nodes() if n.k in ('rangefor', 'for', 'while', 'do') and n.n('c') is not None}
     conds |= {n.n('c').id for g in f.tu.functions if g is not f for n in g.nodes() if n.k in ('rangefor', 'for', 'while', 'do') and n.n('c') is not None and carries(n, g)}
     vis = [(i, c) for i, c in loop_visits(E, conds) if c == 'm_children']
-    return len(vis), conds
+    # a standard algorithm that applies a callable to every child (std::for_each, the range form included) is one such loop: the
+    # evaluator runs the callable once, on a representative child
+    fe = [e for e in E if e.kind == 'foreach' and e.obj == 'm_children']
+    return len(vis) + len(fe), conds
 
 
 def _no_observers_branch(P):
